@@ -190,7 +190,7 @@ PROPS["C10"] = dict(
 )
 
 PROPS["C13"] = dict(
-    gen=lambda rng, n, tier: F.c13(rng, n),
+    gen=lambda rng, n, tier: F.field_lattice(rng) + F.field_lattice(rng, "c") + F.field_lattice(rng, "l") + F.c13(rng, n),
     budget=(12000, 80000),
     absolute=True,
     in_domain=always,
@@ -249,7 +249,7 @@ KF_CLASSES = {"lines_blank_input": kf_lines_blank_input, "lines_invalid_utf8": k
 
 
 PROPS["C01"] = dict(
-    gen=lambda rng, n, tier: F.fields(rng, n) + F.small_scope(rng, maxlen=(4 if tier == "quick" else 6), sample=(20 if tier == "quick" else None)),
+    gen=lambda rng, n, tier: F.field_lattice(rng) + F.fields(rng, n) + F.small_scope(rng, maxlen=(4 if tier == "quick" else 6), sample=(20 if tier == "quick" else None)),
     budget=(15000, 100000),
     absolute=True,
     in_domain=always,
@@ -439,19 +439,19 @@ reg("C04", gen=lambda rng, n, tier: F.c04(rng, n, exhaustive_upto=(7 if tier == 
     theorems=["C04_segmentation_independence", "C04_any_segmentation_equals_single_read",
               "C04_side_condition_always_holds", "C04_stream_items_are_the_parsed_bounds"], assumptions=["a read returns at least one byte unless the input is exhausted"])
 
-reg("C05", gen=lambda rng, n, tier: F.c05(rng, n) + F.c05_big(rng), budget=(9000, 60000), absolute=True,
+reg("C05", gen=lambda rng, n, tier: F.field_lattice(rng, "l") + F.c05(rng, n) + F.c05_big(rng), budget=(9000, 60000), absolute=True,
     oracle=oracle_same("forward", "buffered", "the one-line-at-a-time reader and the whole-input reader disagree on equivalent requests"),
     rule="-l with forward and non-forward bounds lists, --no-join, -z, -m, fallbacks, empty lines, missing final EOL, "
          "invalid UTF-8; plus pairs of equivalent requests (ascending positive vs one index written negatively)",
     theorems=[], assumptions=["format text in -l is outside the statement"])
 
-reg("C07", gen=lambda rng, n, tier: F.c07(rng, n), budget=(9000, 60000), absolute=True,
+reg("C07", gen=lambda rng, n, tier: F.field_lattice(rng, "c") + F.c07(rng, n), budget=(9000, 60000), absolute=True,
     rule="-c on valid UTF-8 records with 1-4 byte scalars, combining marks, ZWJ, characters next to word boundaries, "
          "0/1/many characters per record, bounds incl. negative/open/format text, -z, --json, -m, fallbacks",
     theorems=[], assumptions=["regex's \\b|\\B yields an empty match at every scalar boundary of a valid UTF-8 haystack "
                               "(assumed; exercised by this run)"])
 
-reg("C08", gen=lambda rng, n, tier: F.c08(rng, n) + F.c08_big(rng), budget=(9000, 60000), absolute=True, oracle=oracle_c08,
+reg("C08", gen=lambda rng, n, tier: [c for c in F.field_lattice(rng) + F.field_lattice(rng, "c") if b"--json" in c.argv] + F.c08(rng, n) + F.c08_big(rng), budget=(9000, 60000), absolute=True, oracle=oracle_c08,
     rule="--json in -f and -c mode on valid UTF-8 with quotes, backslashes, U+0000-1F, U+007F, U+2028, astral "
          "characters; multi-byte delimiters, -g -p -t -s -m -z, fallbacks; every output line is also parsed by "
          "Python's strict json.loads",
@@ -503,7 +503,7 @@ reg("C19", gen=lambda rng, n, tier: F.c19(rng, n, full=(tier == "thorough")) + F
 
 # ------------------------------------------------------------------ C16 / C17
 
-reg("C16", gen=lambda rng, n, tier: F.regex(rng, (3 * n) // 4) + F.regex_random(rng, n // 4), budget=(12000, 80000), absolute=True,
+reg("C16", gen=lambda rng, n, tier: F.regex_lattice(rng) + F.regex(rng, (3 * n) // 4) + F.regex_random(rng, n // 4), budget=(12000, 80000), absolute=True,
     compare=lambda c: True,
     rule="-e with regexes of the modelled family (single char, class, alternations of different lengths, '+' runs, "
          "groups, multi-byte literals) x bounds x {-g, -t l|r|b, -p -r R, -r R with $-sequences, -s, -m, -j, --json, "
